@@ -360,6 +360,7 @@ func runIOReader(c *IOCase, x *sim.Ctx) *sim.Violation {
 			}
 			d := *rc
 			d.Src.Fail, d.Src.FailAt, d.Src.WithData, d.Src.Once = true, k, variant == 1, variant == 2
+			d.PostErr = c04PostErr // the caller reads on after the error
 			sub := sim.NewCtx(false)
 			res := runReader(b.Format, b.Stream, len(b.Content), &d, len(b.Content)+4096, sub)
 			x.Eval(1)
@@ -412,6 +413,10 @@ func runIOReader(c *IOCase, x *sim.Ctx) *sim.Violation {
 			case res.Final != nil:
 				if res.Src.BareFired > 0 && !simio.IsInjected(res.Final, res.Src.Err) {
 					v = sim.Viol("source-error-masked", fs, "%s: Read returned %q instead of the source's error", what, res.Final.Error())
+				} else if all := len(res.Out) + len(res.PostErrOut); res.PostErrEOF && (all != len(b.Content) || !isPrefix(res.PostErrOut, b.Content[len(res.Out):])) {
+					// the error was reported; the caller read on and was told that the
+					// stream had ended - with content missing or wrong
+					v = sim.Viol("source-error-as-eof", fs+":after-error", "%s: Read reported %q, later reads went on to a clean end of stream after %d of %d bytes", what, res.Final.Error(), all, len(b.Content))
 				}
 			case res.NoProg:
 				v = sim.Viol("no-progress", fs, "%s: reader neither fails nor ends", what)
